@@ -1,4 +1,6 @@
 """C19 — client requests are sent one at a time and answered in FIFO order; redirects (hio.core.http.clienting.Client)."""
+from urllib.parse import parse_qsl, quote_plus
+
 from .. import core, sx
 from ..areas import httpflow as hf
 from ..extract import httpflow as xhf
@@ -10,6 +12,17 @@ UNKNOWN_PORT = 8109
 
 def _loc(l):
     return None if l is None else (bool(l[0]), l[1], l[2])
+
+
+def _tp(target):
+    """(path, [(name, value)]) of a request target / Location target given as bytes"""
+    t = target.decode("latin-1")
+    path, _, q = t.partition("?")
+    return path.encode("latin-1"), [(k.encode("utf-8"), v.encode("utf-8")) for k, v in parse_qsl(q, keep_blank_values=True)]
+
+
+def _qa(r):
+    return list(r[3]) if len(r) > 3 else []
 
 
 class C19(core.Check):
@@ -28,21 +41,24 @@ class C19(core.Check):
                   "request; a history's first hop was drawn by the k-th request's path), one_entry_each_partial (a run that ended idle has exactly one entry per request), "
                   "redirect_history_attached (history = only redirect responses consumed for that request, in order; a non-error entry is never itself a redirect), "
                   "https_to_http_refused / https_client_only_tls (once on https the client stays on https and every later request goes over TLS), "
+                  "redirect_hop_is_location (a followed redirect puts at most ONE request on the wire: target exactly the Location's path and query arguments — none of the redirected request's own — to the Location's port and scheme, same method, no body), "
+                  "bodiless_response_completes (a response to HEAD or with status 1xx/204/304 is complete at the blank line whatever Content-Length it carries: entry with empty body, queue moves on), "
                   "refused_redirect_is_reported (a redirect from https to http puts nothing on the wire and yields exactly one errored entry whose history ends with that "
                   "redirect — behaviour of the tree after the F49 repair; refusal_witness shows it happens and the queue moves on).  one_entry_each is _partial: a response cut short after some body bytes never completes "
-                  "(truncated_response_sticks, recorded as C19-K1).  closed_connection_yields_error_entries pins the repaired F51 behaviour. "
+                  "(truncated_response_sticks, recorded as C19-K1) and a bodiless response that announces chunked coding is waited for forever (chunked_bodiless_sticks, C19-K2).  closed_connection_yields_error_entries pins the repaired F51 behaviour. "
                   "The model is tied to clienting.py by a seeded differential run (entries, wire log, waited, queue length); the redirect status set is re-extracted by probing.")
     level_note = ("Trusted: Lean kernel + propext/Classical.choice/Quot.sound; message-level abstraction of the byte stream (response parsing is C13/C17's), "
                   "carried by the sampled correspondence under random delays and splits; the scripted connectors replace sockets only (open/wrap/handshake).")
     quick_n = 500
     thorough_n = 8000
-    rule = ("case = (client on https?, queued requests [(method, unique path, body)], servers [(port, tls?, script of responses (status incl. 300/301/302/303/307 with Location to "
+    rule = ("case = (client on https?, queued requests [(method incl. HEAD, unique path, body, query-argument dict)], servers [(port, tls?, script of responses (status incl. 204/304/102 with Content-Length or Transfer-Encoding, 300/301/302/303/307 with Location (own query string) to "
             "any server incl. unknown port and scheme change, body, framing length|chunked|until-close|truncated, delay cycles, split points, close-after))], how many requests are queued late). "
             "non-trivial = at least 2 requests and (a redirect, a close, a delay or a split); distinct by request line")
     trusted_base = ["correspondence harness/props/C19.py: compiled model driver vs hio.core.http.clienting.Client over scripted connectors (harness/areas/httpflow.py World)",
                     "translator harness/extract/httpflow.py (redirect status set probed from Respondent.parseHead over every 3-digit code)",
                     "oracle: the scripted servers' own wire log and served-response log"]
     assumptions = ["responses are well-formed HTTP (malformed input is C16's); hosts are literal 127.0.0.1 (no DNS)",
+                   "a redirected HEAD is not generated (its hop's response is parsed as if the method were GET: Respondent.reinit() default)",
                    "the https->http refusal is observed as an errored entry for the redirect response with the history attached and no hop on the wire (tree after the F49 repair)"]
 
     def extract(self):
@@ -68,22 +84,32 @@ class C19(core.Check):
             (False, R, [(8101, 0, [ok(b"until close", 2), ok(b"x")])], 2),
             (False, R, [(8101, 0, [red(0, 8101, b"/r0"), red(0, 8101, b"/r1"), ok(b"end", 1, 2, (5, 9)), ok(b"b", 0, 3), ok(b"c")])], 0),
             (False, R, [(8101, 0, [red(1, 8101, b"/r0"), ok(b"sec")])], 0),                                    # http -> https on the same port
+            # a redirected request with its own query args; the Location has other args: the hop must go to the Location exactly
+            (False, [(b"GET", b"/q0", b"", [(b"token", b"abc"), (b"page", b"2")]), (b"GET", b"/q1", b"", [(b"name", b"x y")])],
+             [(8101, 0, [(307, (0, 8101, b"/r0?name=fame"), b"", 0, 0, [], False), ok(b"landed"), ok(b"two")])], 0),
+            (False, [(b"POST", b"/q0", b"b", [(b"k 1", b"a&b")])], [(8101, 0, [(302, (0, 8102, b"/r0?k+1=new&z=%26"), b"", 1, 1, [], False)]), (8102, 0, [ok(b"other")])], 0),
+            # bodiless by rule although Content-Length says otherwise: HEAD, 304, 204, 102 — with requests queued behind
+            (False, [(b"GET", b"/q0", b""), (b"HEAD", b"/q1", b""), (b"GET", b"/q2", b""), (b"GET", b"/q3", b""), (b"GET", b"/q4", b"")],
+             [(8101, 0, [ok(b"one"), ok(b"entity-of-two"), ok(b"thr"), (304, None, b"cached-entity", 0, 0, [], False), ok(b"fiv")])], 0),
+            (False, [(b"GET", b"/q0", b""), (b"DELETE", b"/q1", b""), (b"GET", b"/q2", b"")],
+             [(8101, 0, [(204, None, b"xx", 0, 1, [9], False), (102, None, b"yyy", 3, 0, [], False), ok(b"z")])], 0),
+            (False, [(b"HEAD", b"/q0", b""), (b"GET", b"/q1", b"")], [(8101, 0, [ok(b"entity", 1), ok(b"never")])], 0),     # C19-K2 witness
         ]
 
     def exhaustive(self, tier):
         if tier != "thorough":
             return [], None
         import itertools
-        R = [(b"GET", b"/q0", b""), (b"POST", b"/q1", b"xyz")]
+        R = [(b"GET", b"/q0", b"", [(b"a", b"1")]), (b"POST", b"/q1", b"xyz")]
         alpha = [(200, None, b"a", 0, 0, [], False), (200, None, b"bc", 1, 1, [7], False), (404, None, b"d", 0, 0, [], True),
-                 (302, (0, 8101, b"/r0"), b"", 0, 0, [], False), (307, (0, 8102, b"/r1"), b"x", 1, 0, [], False), (200, None, b"ef", 3, 0, [], False),
+                 (302, (0, 8101, b"/r0?b=2"), b"", 0, 0, [], False), (307, (0, 8102, b"/r1"), b"x", 1, 0, [], False), (200, None, b"ef", 3, 0, [], False), (304, None, b"ent", 0, 0, [], False),
                  (200, None, b"gh", 2, 0, [], False)]
         other = (8102, 0, [(200, None, b"O1", 0, 0, [], False), (301, (0, 8101, b"/r2"), b"", 0, 0, [], True), (200, None, b"O3", 1, 0, [], False)])
         cs = []
         for n in (1, 2, 3):
             for script in itertools.product(alpha, repeat=n):
                 cs.append((False, R, [(8101, 0, list(script)), other], 0))
-        return cs, "all scripts of length 1..3 over 7 response kinds (length, chunked+delay, close, redirect same/other server, truncated, until-close) for a queue of 2 requests"
+        return cs, "all scripts of length 1..3 over 8 response kinds (length, chunked+delay, close, redirect same server with query / other server, truncated, until-close, 304 with Content-Length) for a queue of 2 requests"
 
     def _body(self, rng):
         k = rng.random()
@@ -104,15 +130,22 @@ class C19(core.Check):
             tls[ports[0]] = secure
             m = rng.choice([1, 2, 3, 3, 4, 6])
             reqs = []
+            heads = rng.random() < 0.3          # a queue with HEAD requests (then no redirects: a redirected HEAD is not modelled)
+            qtext = lambda: "".join(rng.choice(["a", "b", "1", " ", "&", "=", "+", "é", "%", "x y"]) for _ in range(rng.choice([0, 1, 1, 2])))
+            keys = ["name", "token", "page", "k 1", "a&b", ""]
             for k in range(m):
-                method = rng.choice([b"GET", b"GET", b"POST", b"PUT", b"DELETE"])
+                method = rng.choice([b"GET", b"GET", b"POST", b"PUT", b"DELETE"] + ([b"HEAD", b"HEAD", b"HEAD"] if heads else []))
                 body = b"" if rng.random() < 0.4 else self._body(rng)
-                reqs.append((method, b"/q%d" % k + rng.choice([b"", b"/x", b"/a/b"]), body))
+                qa = {}
+                for _ in range(rng.choice([0, 0, 1, 2, 3])):
+                    qa[rng.choice(keys)] = qtext()
+                reqs.append((method, b"/q%d" % k + rng.choice([b"", b"/x", b"/a/b"]), body, [(a.encode("utf-8"), b.encode("utf-8")) for a, b in qa.items()]))
             rcount = [0]
             servers = []
             pclose = rng.choice([0.0, 0.0, 0.1, 0.3])
-            predir = rng.choice([0.0, 0.15, 0.3, 0.6])
+            predir = 0.0 if heads else rng.choice([0.0, 0.15, 0.3, 0.6])
             ptrunc = rng.choice([0.0, 0.0, 0.0, 0.05])
+            pnobody = rng.choice([0.0, 0.1, 0.3])
             for p in ports:
                 script = []
                 for _ in range(rng.choice([0, 2, 4, 6, 9])):
@@ -121,13 +154,21 @@ class C19(core.Check):
                         status = rng.choice(REDIRECTS)
                         tp = rng.choice(ports + ([UNKNOWN_PORT] if rng.random() < 0.05 else []))
                         tsec = tls.get(tp, secure) if rng.random() < 0.9 else (not tls.get(tp, secure))
-                        loc = (int(tsec), tp, b"/r%d" % rcount[0])
+                        target = b"/r%d" % rcount[0]
+                        if rng.random() < 0.5:       # the Location carries its own query: some new names, sometimes one of the request's
+                            la = {}
+                            for _ in range(rng.choice([1, 1, 2])):
+                                la[rng.choice(keys + ["loc", "z"])] = qtext()
+                            target += b"?" + "&".join(quote_plus(a) + "=" + quote_plus(b) for a, b in la.items()).encode("ascii")
+                        loc = (int(tsec), tp, target)
                         rcount[0] += 1
+                    elif rng.random() < pnobody:
+                        status = rng.choice([204, 304, 304, 102])
                     else:
                         status = rng.choice([200, 200, 200, 201, 404, 500])
                         if rng.random() < 0.05:
                             loc = (int(secure), p, b"/ignored")
-                    fr = 3 if rng.random() < ptrunc else rng.choice([0, 0, 0, 1, 1, 2] if rng.random() < 0.5 else [0, 1])
+                    fr = 3 if rng.random() < ptrunc else rng.choice([0, 0, 0, 1, 1, 2] if rng.random() < 0.5 else [0, 0, 0, 1])
                     delay = rng.choice([0, 0, 0, 1, 2, 5])
                     cuts = sorted(rng.randrange(1, 120) for _ in range(rng.choice([0, 0, 1, 2, 4])))
                     script.append((status, loc, self._body(rng), fr, delay, cuts, rng.random() < pclose))
@@ -137,9 +178,15 @@ class C19(core.Check):
 
     def request(self, case):
         secure, reqs, servers, late = case
-        return ("c19", bool(secure), servers[0][0], [(m, p, b) for m, p, b in reqs],
-                [(port, [(st, None if loc is None else (bool(loc[0]), loc[1], loc[2]), body, fr, bool(fr in (2, 3) or cl))
-                         for st, loc, body, fr, delay, cuts, cl in script]) for port, sec, script in servers])
+
+        def loc(l):
+            if l is None:
+                return None
+            path, q = _tp(l[2])
+            return (bool(l[0]), l[1], path, q)
+        return ("c19", bool(secure), servers[0][0], [(r[0], r[1], r[2], _qa(r)) for r in reqs],
+                [(port, [(st, loc(l), body, fr, bool(fr in (2, 3) or cl))
+                         for st, l, body, fr, delay, cuts, cl in script]) for port, sec, script in servers])
 
     # ------------------------------------------------------------------ real code
     def run_impl(self, case):
@@ -151,7 +198,7 @@ class C19(core.Check):
         for e in o["entries"]:
             err = e["errored"]
             ents.append((None if err else e["status"], b"" if err else e["body"], err, e["tag"], (e["method"] or "").encode("latin-1"),
-                         (e["path"] or "").encode("utf-8"), e["rbody"], [(s, (p or "").encode("utf-8"), t) for s, p, t in e["redirects"]]))
+                         (e["path"] or "").encode("utf-8"), e["rbody"], e["rqargs"], [(s, (p or "").encode("utf-8"), t) for s, p, t in e["redirects"]]))
         self._last = o
         return (outcome, ents, [tuple(w) for w in o["wire"]], o["waited"], o["left"],
                 # not compared with the model (timing-level facts for the oracle only)
@@ -167,8 +214,8 @@ class C19(core.Check):
         wire = obs[2]
         first = {}
         for i, w in enumerate(wire):
-            for k, (m, p, b) in enumerate(reqs):
-                if w[3] == p and k not in first:
+            for k, r in enumerate(reqs):
+                if _tp(w[3])[0] == r[1] and k not in first:
                     first[k] = i
         groups = {}
         starts = sorted(first.values())
@@ -191,9 +238,9 @@ class C19(core.Check):
         if order != sorted(order):
             bad.append("transmit-order")
         for k, idx in groups.items():
-            m, p, b = reqs[k]
+            m, p, b = reqs[k][:3]
             w = wire[idx[0]]
-            if w[2] != m or w[4] != (b"" if m == b"GET" else b):
+            if w[2] != m or w[4] != (b"" if m == b"GET" else b) or _tp(w[3])[1] != _qa(reqs[k]):
                 bad.append("transmitted-request-differs")
                 break
         if outcome != "running":        # since F49 was repaired nothing is raised out of Client.service() any more
@@ -201,7 +248,7 @@ class C19(core.Check):
             return bad
         # entries: one per request, in order, carrying the originating request
         for k, e in enumerate(ents):
-            status, body, errored, tag, method, path, rbody, hist = e
+            status, body, errored, tag, method, path, rbody, rqargs, hist = e
             origin = tag if tag is not None else (hist[0][2] if hist else None)
             if origin != k:
                 bad.append("fifo-entry-origin")
@@ -210,10 +257,10 @@ class C19(core.Check):
                 bad.append("extra-entry")
                 break
             idx = groups.get(k)
-            m, p, b = reqs[k]
+            m, p, b = reqs[k][:3]
             if hist and hist[0][1] != p:
                 bad.append("history-first-hop-not-originating-request")
-            if not hist and not errored and (method != m or path != p or rbody != b):
+            if not hist and not errored and (method != m or path != p or rbody != b or rqargs != _qa(reqs[k])):
                 bad.append("entry-request-differs")
             if idx is None:
                 if not errored:
@@ -225,9 +272,10 @@ class C19(core.Check):
             followed = final[0] in REDIRECTS and final[1] is not None
             if any(not (c[0] in REDIRECTS and c[1] is not None) for c in chain[:-1]):
                 bad.append("hop-after-non-redirect")
-            # every hop must have gone where the previous response pointed
+            # every hop must have gone exactly where the previous response pointed: port, scheme, path AND query arguments
+            # of the Location — nothing of the redirected request's own target travels along
             for a, i in zip(chain[:-1], idx[1:]):
-                if (wire[i][0], wire[i][1], wire[i][3]) != (a[1][1], a[1][0], a[1][2]):
+                if (wire[i][0], wire[i][1]) + _tp(wire[i][3]) != (a[1][1], a[1][0]) + _tp(a[1][2]):
                     bad.append("redirect-target-differs")
                     break
             # a redirect received over TLS that points to http must not be followed at all
@@ -235,34 +283,49 @@ class C19(core.Check):
                 if wire[i][1] and not a[1][0]:
                     bad.append("https-to-http-not-refused")
                     break
+            fmethod = wire[idx[-1]][2]
+            bodiless = hf.c19_bodiless(fmethod, final[0])
             if followed:
-                # the last response on the wire for k was itself a redirect whose hop never reached a server (dead / unknown target): errored entry with full history
+                # the last response on the wire for k was itself a redirect whose hop never reached a server (dead / unknown / refused target): errored entry with full history
                 if not errored or [h[0] for h in hist] != exp_hist + [final[0]]:
                     bad.append("redirect-history")
-            elif final[3] == 3:
+            elif self._never(fmethod, final):
+                bad.append("entry-for-a-response-that-cannot-complete")
+            elif (final[3] == 3 and not bodiless) or (bodiless and final[3] == 1 and final[4]):
                 if not errored:         # a response the server cut short can only be reported as an error
                     bad.append("entry-for-truncated-response")
             else:
-                if errored or status != final[0] or body != final[2]:
+                if errored or status != final[0] or body != (b"" if bodiless else final[2]):
                     bad.append("response-differs")
                 if [h[0] for h in hist] != exp_hist:
                     bad.append("redirect-history")
+                if hist and (path, rqargs) != _tp(chain[-2][1][2]):
+                    bad.append("entry-request-not-the-last-location")
         if outcome == "running":
             if len(ents) != len(reqs) or waited or left:
                 bad.append("missing-entries")
         return bad
 
-    def _k1(self, case, obs):
-        """the first request without an entry was drawing a truncated response"""
+    @staticmethod
+    def _never(method, served):
+        """a served response the client can never see the end of: cut short after some body bytes (C19-K1), or bodiless by rule but
+        announcing chunked coding (C19-K2)"""
+        if hf.c19_bodiless(method, served[0]):
+            return "C19-K2" if served[3] == 1 and not served[4] else None
+        return "C19-K1" if served[3] == 3 and len(served[2]) > 0 else None
+
+    def _stuck_on(self, case, obs):
+        """id of the known finding if the first request without an entry was drawing a response that cannot complete"""
         outcome, ents, wire, waited, left, (_, overlap, insecure_bytes, served, raised) = obs
         groups = self._walk(case, obs)
-        k = len(ents)
-        idx = groups.get(k)
-        return bool(outcome == "running" and waited and idx and served[idx[-1]][3] == 3 and idx[-1] == len(wire) - 1)
+        idx = groups.get(len(ents))
+        if outcome == "running" and waited and idx and idx[-1] == len(wire) - 1:
+            return self._never(wire[idx[-1]][2], served[idx[-1]])
+        return None
 
     def known(self, case, obs, clauses):
-        if clauses == ["missing-entries"] and self._k1(case, obs):
-            return "C19-K1"
+        if clauses == ["missing-entries"]:
+            return self._stuck_on(case, obs)
         return None
 
     def nontrivial(self, case, obs):
@@ -277,12 +340,19 @@ class C19(core.Check):
         f += [f"entries={min(len(ents), 6)}", "waited-at-end" if waited else "idle-at-end"]
         if any(e[2] for e in ents):
             f.append("errored-entry")
-        mx = max([len(e[7]) for e in ents], default=0)
+        mx = max([len(e[8]) for e in ents], default=0)
         f.append(f"max-history={min(mx, 4)}")
         for s in served:
             f.append("served:" + ("redirect" if s[0] in REDIRECTS and s[1] else "final") + ":" + ["length", "chunked", "until-close", "truncated"][s[3]] + (":close" if s[4] else ""))
         if len({w[0] for w in wire}) > 1:
             f.append("multi-server")
+        for w, sv in zip(wire, served):
+            if hf.c19_bodiless(w[2], sv[0]):
+                f.append("bodiless:" + ("HEAD" if w[2] == b"HEAD" else str(sv[0])) + ":" + ["length", "chunked", "until-close", "truncated"][sv[3]] + (":entity" if sv[2] else ""))
+            if sv[0] in REDIRECTS and sv[1] and b"?" in sv[1][2]:
+                f.append("location:with-query" + (":request-had-args" if _tp(w[3])[1] else ""))
+        if any(_qa(r) for r in reqs):
+            f.append("requests-with-query-args")
         return f
 
     def shrink(self, case):
@@ -300,9 +370,13 @@ class C19(core.Check):
                     yield (secure, reqs, servers[:i] + [(port, sec, script[:j] + [(st, loc, body, fr, 0, [], cl)] + script[j + 1:])] + servers[i + 1:], late)
                 if len(body) > 1:
                     yield (secure, reqs, servers[:i] + [(port, sec, script[:j] + [(st, loc, body[:1], fr, delay, cuts, cl)] + script[j + 1:])] + servers[i + 1:], late)
-        for k, (m, p, b) in enumerate(reqs):
+        for k, r in enumerate(reqs):
+            m, p, b = r[:3]
             if b:
-                yield (secure, reqs[:k] + [(m, p, b"")] + reqs[k + 1:], servers, late)
+                yield (secure, reqs[:k] + [(m, p, b"", _qa(r))] + reqs[k + 1:], servers, late)
+            qa = _qa(r)
+            for j in range(len(qa)):
+                yield (secure, reqs[:k] + [(m, p, b, qa[:j] + qa[j + 1:])] + reqs[k + 1:], servers, late)
 
     def mutate(self, rng, case):
         return list(self.shrink(case))[:40]
